@@ -51,6 +51,7 @@ type Contract struct {
 	Loops        map[int]*LoopSpec
 	Iters        map[int]*LoopSpec // invariants for iterate-with-closure call sites, by ordinal
 	Trusted      bool
+	Refined      string // trusted table-level accessor contract that a lemma of the same package derives from the verified store-level (@store) contract of the same function
 	Pure         bool
 	Inline       bool
 	Concrete     bool // strings concrete
@@ -450,6 +451,8 @@ func parseContractFile(path string, pkgPath string) ([]*Contract, error) {
 			}
 		case "trusted":
 			cur.Trusted = true
+		case "refined":
+			cur.Refined = strings.TrimSpace(rest)
 		case "pure":
 			cur.Pure = true
 		case "inline":
